@@ -347,6 +347,63 @@ fn fix_json_literals(t: &mut MTerm, ctx: &mut Ctx) {
     }
 }
 
+/// What a JSON-LD round trip in compound-literal mode can give back given the reader's defect:
+/// every well-formed compound literal node (blank node whose only statements in its graph are
+/// one plain rdf:value, one plain rdf:direction "ltr"/"rtl" and at most one plain rdf:language
+/// holding a valid tag) that is referenced in that graph is written as a value object; the
+/// reader then creates one fresh blank node per reference and none of the node's own triples.
+fn fold_compound_literals(want: &BTreeSet<MQuad>) -> (BTreeSet<MQuad>, bool) {
+    let rdfp = |l: &str| MTerm::Iri(format!("{RDF}{l}"));
+    let (value, direction, language) = (rdfp("value"), rdfp("direction"), rdfp("language"));
+    let graph_names: BTreeSet<&MTerm> = want.iter().filter_map(|q| q.1.as_ref()).collect();
+    let mut groups: std::collections::BTreeMap<(Option<MTerm>, MTerm), Vec<&MQuad>> = Default::default();
+    for q in want {
+        if q.0[0].is_bnode() {
+            groups.entry((q.1.clone(), q.0[0].clone())).or_default().push(q);
+        }
+    }
+    let plain = |t: &MTerm| match t {
+        MTerm::Lit(lex, dt) if dt == XSD_STRING => Some(lex.clone()),
+        _ => None,
+    };
+    let mut folded: BTreeSet<(Option<MTerm>, MTerm)> = BTreeSet::new();
+    for ((g, b), qs) in &groups {
+        let vals: Vec<_> = qs.iter().filter(|q| q.0[1] == value).collect();
+        let dirs: Vec<_> = qs.iter().filter(|q| q.0[1] == direction).collect();
+        let langs: Vec<_> = qs.iter().filter(|q| q.0[1] == language).collect();
+        let well_formed = vals.len() == 1
+            && dirs.len() == 1
+            && langs.len() <= 1
+            && qs.len() == 2 + langs.len()
+            && plain(&vals[0].0[2]).is_some()
+            && plain(&dirs[0].0[2]).is_some_and(|d| d == "ltr" || d == "rtl")
+            && langs.iter().all(|q| plain(&q.0[2]).is_some_and(|l| sophia_api::term::LanguageTag::new(l.as_str()).is_ok()));
+        // in the default graph a blank node that is also a graph name carries its "@graph" entry
+        let is_graph_name = g.is_none() && graph_names.contains(b);
+        let referenced = want.iter().any(|q| &q.1 == g && &q.0[2] == b);
+        if well_formed && !is_graph_name && referenced {
+            folded.insert((g.clone(), b.clone()));
+        }
+    }
+    if folded.is_empty() {
+        return (want.clone(), false);
+    }
+    let mut out = BTreeSet::new();
+    let mut fresh = 0;
+    for q in want {
+        if folded.contains(&(q.1.clone(), q.0[0].clone())) {
+            continue;
+        }
+        if folded.contains(&(q.1.clone(), q.0[2].clone())) {
+            fresh += 1;
+            out.insert(([q.0[0].clone(), q.0[1].clone(), MTerm::Bnode(format!("compound{fresh}"))], q.1.clone()));
+        } else {
+            out.insert(q.clone());
+        }
+    }
+    (out, true)
+}
+
 fn run_c12(ctx: &mut Ctx) -> Verdict {
     let hs = ctx.tape.draw(1 << 32);
     let fmt = JsonLd {
@@ -394,17 +451,25 @@ fn run_c12(ctx: &mut Ctx) -> Verdict {
         ctx.probe("named_graphs_present");
     }
     let want: BTreeSet<MQuad> = expressible.iter().map(norm_quad).collect();
+    let compound_mode = fmt.dir == Dir::Compound;
     let classify = |want: &BTreeSet<MQuad>, got: &BTreeSet<MQuad>| -> Option<&'static str> {
+        // known finding (json-ld-core 0.15.1 creates the blank node of a compound literal but
+        // none of its rdf:value / rdf:direction / rdf:language triples): what the reader can
+        // give back at best
+        let (w1, folded) = if compound_mode { fold_compound_literals(want) } else { (want.clone(), false) };
+        if folded && isomorphic(&w1, got).is_yes() {
+            return Some("compound_literal_triples_lost");
+        }
         // is the only difference that `_:l rdf:type rdf:List` quads of compacted lists are gone?
         let ty = MTerm::Iri(format!("{RDF}type"));
         let list = MTerm::Iri(format!("{RDF}List"));
-        let w2: BTreeSet<MQuad> = want
+        let w2: BTreeSet<MQuad> = w1
             .iter()
             .filter(|q| !(q.0[0].is_bnode() && q.0[1] == ty && q.0[2] == list))
             .cloned()
             .collect();
-        if w2.len() < want.len() && isomorphic(&w2, got).is_yes() {
-            return Some("rdf_list_type_dropped");
+        if w2.len() < w1.len() && isomorphic(&w2, got).is_yes() {
+            return Some(if folded { "compound_literal_triples_lost" } else { "rdf_list_type_dropped" });
         }
         None
     };
